@@ -331,8 +331,23 @@ def json_fields(P, R):
                     'name -> level table instead of the level -> name '
                     'table', unit=mk.unit.rel, line=mk.lineno)
     else:
-        R.undecided('R-FORMAT', mk.qualname, 'level -> variable',
-                    'unrecognised form')
+        # the level decoded by the RECEIVING manager?
+        mgr = [p for p in mk.params][1:2]
+        by_target = [c for c in au.calls_in(mk.node)
+                     if au.call_name(c) in ('var_at_level',)
+                     and mgr and au.call_recv(c) == mgr]
+        if by_target:
+            R.violation(
+                'R-FORMAT', 'json-fields', mk.qualname, 'var_at_level',
+                f'`{au.short(by_target[0])}` translates the level stored '
+                'in the FILE with the level table of the receiving '
+                'manager: right only while the manager has the order of '
+                'the file (a different order, or a reordering in the '
+                'middle of the load, labels the nodes with other '
+                'variables)', unit=mk.unit.rel, line=by_target[0].lineno)
+        else:
+            R.undecided('R-FORMAT', mk.qualname, 'level -> variable',
+                        'unrecognised form')
     inv = None
     for n in au.walk_no_defs(rd.node):
         if isinstance(n, ast.Assign) and isinstance(
